@@ -1043,6 +1043,9 @@ M('C14', 'TDVP basis expansion reads the non-existent Krylov_options (original d
 M('C05', 'speigs: dtype passed as the column count of np.eye (original defect)', NPC,
   "np.eye(k, dtype=a.dtype)", "np.eye(k, a.dtype)", 'FACT-numpy-roles')
 
+M('C03', 'ExactDiag.full_to_mps relabels its argument (original defect)', 'tenpy/algorithms/exact_diag.py',
+  "        psi = psi.copy(deep=False)  # don't relabel the argument\n", "", 'OWN-param-icall')
+
 # ---------------------------------------------------------------- C16 / C19
 M('C16', 'GMRES restart: relative residual norm used for normalisation (round-3 seed b)', KRY,
   """        self.total_error.append([npc.norm(self.rs[-1]) / self.b_norm])
